@@ -470,8 +470,11 @@ func (r *runner) doApply(i int, o OpSpec) string {
 		}
 		// … and which object its NewClasses map is (ClassAlias.lean): the caller's, the replaced entry's, a new one
 		origin := r.alias.classOrigin(aff, classes)
-		impl += " cm=" + origin
 		r.hit("apply-classmap-" + origin)
+		if origin == "caller" || origin == "fresh" {
+			origin = "own" // not an object any reader holds yet; which of the two is not compared
+		}
+		impl += " cm=" + origin
 	}
 	r.ask(i, "apply", o.applyLine(), impl)
 	return kind
